@@ -38,6 +38,8 @@ pub enum BinaryRequest {
     QuitQuietly(binary::QuitRequest),
     ItemTooLarge(binary::SetRequest),
     Stats(binary::StatsRequest),
+    /// A protocol command this server does not implement (touch, get-and-touch, SASL)
+    NotSupported(binary::Request),
 }
 
 impl BinaryRequest {
@@ -70,7 +72,8 @@ impl BinaryRequest {
 
             BinaryRequest::Noop(request)
             | BinaryRequest::Version(request)
-            | BinaryRequest::Stats(request) => &request.header,
+            | BinaryRequest::Stats(request)
+            | BinaryRequest::NotSupported(request) => &request.header,
 
             BinaryRequest::Flush(request) | BinaryRequest::FlushQuietly(request) => &request.header,
 
@@ -289,8 +292,11 @@ impl MemcacheBinaryCodec {
             | Some(binary::Command::SaslAuth)
             | Some(binary::Command::SaslListMechs)
             | Some(binary::Command::SaslStep) => {
+                // the body has been consumed; the handler answers with an error
                 error!("Command not supported, opcode: {:?}", self.header.opcode);
-                Ok(None)
+                Ok(Some(BinaryRequest::NotSupported(binary::Request {
+                    header: self.header,
+                })))
             }
 
             Some(binary::Command::OpCodeMax) => {
